@@ -32,10 +32,11 @@ from ..core import pool_map
 
 MODULE = "comm/BlockDiag.tla"
 DEVS = ["RejectedMetricCommitted", "NaiveKeepsCallerDict", "ReturnedNsAliasesChannel", "ArgsNotResetOnMetricChange",
-        "StaleStreamCounts", "SolveStoresDecision"]
-ALL_ACTS = {"Construct", "SetMetric", "EditDict", "NewChannel", "SolveBD", "SolveExt", "CalcWhitening", "CalcReceiveFilter", "Scribble"}
-INVS = ["TypeOK", "MetricArgsConsistent", "ChannelIntact", "NoSharedDict", "RequiredAfterSolve"]
-PROPS = ["RejectedLeavesUnchanged", "OnlySetMetricChangesMetric", "SolveUsesCurrentMetric", "SolveLeavesConfig"]
+        "StaleStreamCounts", "SolveStoresDecision", "PowerCachedAtConstruction"]
+ALL_ACTS = {"Construct", "SetAttr", "SetMetric", "EditDict", "NewChannel", "SolveBD", "SolveExt", "CalcWhitening", "CalcReceiveFilter", "Scribble"}
+INVS = ["TypeOK", "MetricArgsConsistent", "ChannelIntact", "NoSharedDict", "RequiredAfterSolve", "ResultObeysCurrentAttributes"]
+PROPS = ["RejectedLeavesUnchanged", "OnlySetMetricChangesMetric", "SolveUsesCurrentMetric", "SolveLeavesConfig", "OnlySettersChangeObject",
+         "SetAttrChangesOnlyThat"]
 TOL = 1e-7          # (rel) nulling / power
 TOL_ID = 1e-6       # (rel) identity of receive filter x effective channel
 POWERED = 1e-8      # a stream is "powered" above this fraction of the user power, "unpowered" at exactly zero
@@ -315,38 +316,87 @@ def _alarm(signum, frame):
     raise Hang()
 
 
+def value_form(x, variant):
+    """the same number as a Python float, a numpy scalar or (when integer valued) an int"""
+    if variant % 3 == 1:
+        return np.float64(x)
+    if variant % 3 == 2 and float(x).is_integer():
+        return int(x)
+    return float(x)
+
+
+def argument_form(H, variant):
+    """the same matrix as a C-contiguous, Fortran-ordered, strided (view into a larger buffer) or read-only array"""
+    v = variant % 4
+    if v == 1:
+        return np.asfortranarray(H)
+    if v == 2:
+        big = np.zeros((2 * H.shape[0], 2 * H.shape[1]), dtype=complex)
+        big[::2, ::2] = H
+        return big[::2, ::2]
+    A = np.array(H)
+    if v == 3:
+        A.setflags(write=False)
+    return A
+
+
+def flat_arrays(res):
+    """all ndarrays inside a returned tuple (arrays of per-user matrices are unpacked)"""
+    out = []
+    for x in res:
+        if isinstance(x, np.ndarray) and x.dtype == object:
+            out += [np.asarray(y) for y in x]
+        elif isinstance(x, (list, tuple)):
+            out += [np.asarray(y) for y in x]
+        else:
+            out.append(np.asarray(x))
+    return out
+
+
+ATTR = {"iPu": "p", "noise_var": "nv", "pe": "pe"}
+
+
 class Driver:
     def __init__(self, seed):
         self.rs = np.random.RandomState(seed % (2 ** 31))
         self.seed = seed
         self.o = None
-        self.cfg = None          # constructor record with float values
+        self.cfg = None          # class, K and the CURRENT values of iPu / noise_var / pe (as emitted by TLC)
         self.M = None            # harness copy of [H | He]
         self.ch = None           # the MultiUserChannelMatrixExtInt handed to the library (ext classes)
+        self.ch_nv = None        # the noise variance given to that channel object
         self.dims = None
         self.res = None          # what the last solve returned
-        self.res_M = None        # ... and the channel it was computed for
-        self.W = None
+        self.res_M = None        # ... the channel it was computed for
+        self.res_cfg = None      # ... and the attribute values TLC emitted for that call
         self.dict = None         # the dictionary handed to the last accepted set_ext_int_handling_metric
+        self.held = []           # earlier results: (description, arrays as returned, copies taken at return)
         self.redraws = 0
         self.stats = {}
 
     # -- helpers
-    def fresh(self, metric):
-        """a new object with the same constructor arguments and the metric of the given abstract state"""
-        o = make_object(self.cfg)
+    def fresh(self, metric, cfg=None):
+        """a new object with the current attribute values and the metric of the given abstract state"""
+        o = make_object(cfg or self.cfg)
         if self.cfg["cls"] == "EBD" and metric["name"] != "None":
             m, d = metric_call_args(metric["name"], metric)
             o.set_ext_int_handling_metric(m, d)
         return o
 
     def public_state(self, o):
-        st = [o.num_users, o.iPu, o.noise_var]
+        st = [o.num_users, float(o.iPu), float(o.noise_var)]
         if self.cfg["cls"] != "BD":
-            st.append(o.pe)
+            st.append(float(o.pe))
         if self.cfg["cls"] == "EBD":
             st.append(o.metric_name)
         return st
+
+    def use_cfg(self, vals):
+        """the attribute values TLC emitted with the call (they are the harness' notion of 'current')"""
+        c = dict(self.cfg, p=frac(vals["p"]), nv=frac(vals["nv"]), pe=frac(vals["pe"]))
+        if (c["p"], c["nv"]) != (self.cfg["p"], self.cfg["nv"]) or (c["cls"] != "BD" and c["pe"] != self.cfg["pe"]):
+            raise RuntimeError(f"emitted attribute values {vals} differ from the values assigned so far {self.cfg}")
+        return c
 
     def channel_untouched(self):
         bad = []
@@ -355,54 +405,116 @@ class Driver:
             ch = self.ch
             if list(ch.Nr) != [N] * K or list(ch.Nt) != [N] * K or ch.K != K:
                 bad.append(f"InputsUntouched: the channel object now reports Nr={list(ch.Nr)} Nt={list(ch.Nt)} K={ch.K} (was {N} per user, K={K})")
-            elif ch.noise_var != self.cfg["nv"]:
+            elif ch.noise_var != self.ch_nv:
                 bad.append("InputsUntouched: the noise variance of the channel object changed")
             elif np.asarray(ch.big_H).shape != self.M.shape or not np.array_equal(ch.big_H, self.M):
                 bad.append("InputsUntouched: the channel matrix of the channel object changed")
         return bad
 
+    def hold(self, what, res):
+        arrs = flat_arrays(res)
+        self.held = self.held[-1:] + [(what, arrs, [np.array(x) for x in arrs])]
+
+    def earlier_results_unchanged(self):
+        for what, arrs, copies in self.held:
+            for x, y in zip(arrs, copies):
+                if x.shape != y.shape or not np.array_equal(x, y, equal_nan=True):
+                    return [f"EarlierResultsUnchanged: an array returned earlier by {what} changed during a later call"]
+        return []
+
     def solve_ext(self, o, ch):
         with np.errstate(all="ignore"):
             return o.block_diagonalize_no_waterfilling(ch)
 
-    def solve_bd(self, o, op, H):
+    def solve_bd(self, o, op, H, c=None):
         from pyphysim.comm import blockdiagonalization as bdm
-        c = self.cfg
+        c = c or self.cfg
         if op == "bd_wf":
             return o.block_diagonalize(H)
         if op == "bd_nowf":
             return o.block_diagonalize_no_waterfilling(H)
         return bdm.block_diagonalize(H, c["K"], c["p"], c["nv"])
 
+    def bystander(self, op):
+        """another object of the same class with other attribute values works on the same channel first: nothing of it
+        may show in the object under test (class- / module-level state)"""
+        c = dict(self.cfg, p=self.cfg["p"] * 3.0 + 0.25, nv=self.cfg["nv"] * 0.5 + 0.01, pe=self.cfg["pe"] + 1.0)
+        K, N, rE = self.dims
+        b = self.fresh({"name": "None"}, c)
+        try:
+            if op == "ext":
+                self.solve_ext(b, make_mu_channel(self.M, K, N, rE, self.ch_nv))
+            else:
+                self.solve_bd(b, op, np.array(self.M[:, :K * N]), c)
+        except Exception:
+            pass
+
     def probe(self, pr):
-        """a solve on a COPY of the object for the current channel must follow the post-state's rule"""
+        """a solve on a COPY of the object for the current channel must follow the post-state's rule and power"""
         if not pr.get("ok") or self.ch is None:
             return []
         K, N, rE = self.dims
         o = copy.deepcopy(self.o)
-        ch = make_mu_channel(self.M, K, N, rE, self.cfg["nv"])
+        ch = make_mu_channel(self.M, K, N, rE, self.ch_nv)
         try:
             Ms, Wk, Ns = self.solve_ext(o, ch)
         except Exception as ex:
             return [f"a solve in this state raised {type(ex).__name__}: {ex}"]
         req = set(pr["req"]) & {"StreamCountsMatchPrecoders", "AllStreamsKept", "StreamCountIsNumStreams", "StreamCountInRange", "PowerEqPerUser"}
-        return [f"probe solve: {b}" for b in eval_ext(req, self.M, K, N, rE, self.cfg["p"], pr["last"], Ms, Wk, Ns)]
+        return [f"probe solve: {b}" for b in eval_ext(req, self.M, K, N, rE, frac(pr["cfg"]["p"]), pr["last"], Ms, Wk, Ns)]
+
+    def probe_plain(self):
+        """block_diagonalize_no_waterfilling / block_diagonalize on a COPY of a plain object must obey the current power"""
+        if self.M is None or self.cfg["cls"] != "BD":
+            return []
+        K, N, rE = self.dims
+        H = self.M[:, :K * N]
+        o = copy.deepcopy(self.o)
+        bad = []
+        for op, req in (("bd_nowf", {"PowerEqPerUser", "EffectiveChannelBlockDiagonal"}), ("bd_wf", {"PowerLePerUser", "PowerReachedByOne"})):
+            try:
+                newH, Ms = self.solve_bd(o, op, np.array(H))
+            except Exception as ex:
+                return [f"{op} in this state raised {type(ex).__name__}: {ex}"]
+            bad += [f"probe {op}: {b}" for b in eval_bd(req, H, K, N, self.cfg["p"], newH, Ms)]
+        return bad
 
     # -- one emitted transition; returns list of (finding id | None, text)
     def step(self, e, do_probe):
+        bad = self._step(e, do_probe)
+        if self.o is not None and e["ret"]["op"] != "Scribble":
+            bad += [(None, b) for b in self.earlier_results_unchanged()]
+        return bad
+
+    def _step(self, e, do_probe):
         from pyphysim.comm import blockdiagonalization as bdm
         op, a, out = e["ret"]["op"], e["ret"]["a"], e["ret"]["out"]
         post, req = e["post"], set(e["req"])
         bad = []
         if op == "Construct":
             self.cfg = {"cls": a["cls"], "K": a["K"], "p": frac(a["p"]), "nv": frac(a["nv"]), "pe": frac(a["pe"])}
-            self.o = make_object(self.cfg)
+            v = self.rs.randint(0, 3)
+            self.o = make_object(dict(self.cfg, p=value_form(self.cfg["p"], v), nv=value_form(self.cfg["nv"], v + 1), pe=value_form(self.cfg["pe"], v + 2)))
             return bad
         o, c = self.o, self.cfg
         K = c["K"]
         before = self.public_state(o)
+        if op == "SetAttr":
+            val = frac(a["value"])
+            setattr(o, a["attr"], value_form(val, self.rs.randint(0, 3)))
+            c[ATTR[a["attr"]]] = val
+            want = list(before)
+            want[{"iPu": 1, "noise_var": 2, "pe": 3}[a["attr"]]] = val
+            after = self.public_state(o)
+            if after != want:
+                bad.append((None, f"InputsUntouched: after {a['attr']} = {val} the object reports {after}, expected {want}"))
+            # every solve path must obey the CURRENT values
+            bad += [(None, f"after {a['attr']} = {val} on the live object: {b}") for b in self.probe(e["probe"])]
+            bad += [(None, f"after {a['attr']} = {val} on the live object: {b}") for b in self.probe_plain()]
+            return bad
         if op == "SetMetric":
             m, d = metric_call_args(a["name"], a["args"], variant=self.rs.randint(0, 2))
+            d0 = dict(d)
             try:
                 if not d and self.rs.randint(0, 2):
                     o.set_ext_int_handling_metric(m)
@@ -411,6 +523,8 @@ class Driver:
                 raised = None
             except AttributeError as ex:
                 raised = ex
+            if d != d0:
+                bad.append((None, "InputsUntouched: set_ext_int_handling_metric modified the dictionary it was given"))
             if out == "ok":
                 if raised is not None:
                     return [(None, f"set_ext_int_handling_metric({a['name']}, {sorted(d)}) was rejected: {raised}")]
@@ -424,6 +538,8 @@ class Driver:
                     return bad
             if o.metric_name != post["metric"]["name"]:
                 bad.append((None, f"metric_name is {o.metric_name}, expected {post['metric']['name']}"))
+            if self.public_state(o)[:-1] != before[:-1]:
+                bad.append((None, f"InputsUntouched: set_ext_int_handling_metric changed the attributes from {before} to {self.public_state(o)}"))
             if do_probe and not bad:
                 bad += [(None, f"after {out} set_ext_int_handling_metric({a['name']}, {sorted(d)}): {b}") for b in self.probe(e["probe"])]
             return bad
@@ -438,64 +554,85 @@ class Driver:
             self.M, rd = draw_channel(self.rs, K, N, rE)
             self.redraws += rd
             self.dims = (K, N, rE)
-            self.ch = make_mu_channel(self.M, K, N, rE, c["nv"], variant=self.rs.randint(0, 2)) if rE else None
+            self.ch_nv = c["nv"]
+            self.ch = make_mu_channel(self.M, K, N, rE, self.ch_nv, variant=self.rs.randint(0, 2)) if rE else None
             return bad
         K, N, rE = self.dims
         KN = K * N
         H = self.M[:, :KN]
         if op == "SolveBD":
-            Harg = np.array(H) if self.ch is None or self.rs.randint(0, 2) else self.ch.big_H_no_ext_int
+            cc = self.use_cfg(a["cfg"])
+            if self.rs.randint(0, 3) == 0:
+                self.bystander(a["op"])
+            Harg = argument_form(H, self.rs.randint(0, 4)) if self.ch is None or self.rs.randint(0, 2) else self.ch.big_H_no_ext_int
             try:
                 newH, Ms = self.solve_bd(o, a["op"], Harg)
             except Exception as ex:
                 return [(None, f"{a['op']} raised {type(ex).__name__}: {ex}")]
-            self.res, self.res_M, self.W = (a["op"], newH, Ms), self.M, None
-            bad += [(None, b) for b in eval_bd(req, H, K, N, c["p"], newH, Ms, stats=self.stats, nv=c["nv"])]
+            self.res, self.res_M, self.res_cfg = (a["op"], newH, Ms), self.M, cc
+            bad += [(None, b) for b in eval_bd(req, H, K, N, cc["p"], newH, Ms, stats=self.stats, nv=cc["nv"])]
             if "InputsUntouched" in req:
                 if not np.array_equal(Harg, H):
                     bad.append((None, "InputsUntouched: the channel matrix handed to the solve was modified"))
+                if np.shares_memory(np.asarray(Ms), Harg) or np.shares_memory(np.asarray(newH), Harg):
+                    bad.append((None, "InputsUntouched: a returned array shares memory with the channel matrix argument"))
                 bad += [(None, b) for b in self.channel_untouched()]
+            bad += [(None, b) for b in self.earlier_results_unchanged()]
+            self.hold(a["op"], (newH, Ms))
             if "SameAsFreshObject" in req and not bad:
                 ref = self.solve_bd(self.fresh(post["metric"]), a["op"], np.array(H))
                 if not same_result((newH, Ms), ref):
-                    bad.append((None, f"{a['op']} on this object differs from the same call on a fresh object (history leaked)"))
+                    bad.append((None, f"SameAsFreshObject: {a['op']} on this object differs from the same call on a fresh object with the "
+                                "current attribute values (history leaked)"))
         elif op == "SolveExt":
+            cc = self.use_cfg(a["cfg"])
+            if self.rs.randint(0, 3) == 0:
+                self.bystander("ext")
             try:
                 Ms, Wk, Ns = self.solve_ext(o, self.ch)
             except Exception as ex:
                 return [(None, f"block_diagonalize_no_waterfilling(mu_channel) raised {type(ex).__name__}: {ex}")]
-            self.res, self.res_M = ("ext", Ms, Wk, Ns), self.M
-            bad += [(None, b) for b in eval_ext(req, self.M, K, N, rE, c["p"], post["last"], Ms, Wk, Ns, stats=self.stats)]
+            self.res, self.res_M, self.res_cfg = ("ext", Ms, Wk, Ns), self.M, cc
+            bad += [(None, b) for b in eval_ext(req, self.M, K, N, rE, cc["p"], post["last"], Ms, Wk, Ns, stats=self.stats)]
             if "InputsUntouched" in req:
                 bad += [(None, b) for b in self.channel_untouched()]
+            bad += [(None, b) for b in self.earlier_results_unchanged()]
+            try:
+                self.hold("block_diagonalize_no_waterfilling(mu_channel)", (Ms, Wk, Ns))
+            except Exception:
+                pass
             if "SameAsFreshObject" in req and not bad:
-                ref = self.solve_ext(self.fresh(post["metric"]), make_mu_channel(self.M, K, N, rE, c["nv"]))
+                ref = self.solve_ext(self.fresh(post["metric"]), make_mu_channel(self.M, K, N, rE, self.ch_nv))
                 if not same_result((Ms, Wk, np.asarray(Ns, dtype=float)), (ref[0], ref[1], np.asarray(ref[2], dtype=float))):
-                    bad.append((None, "the solve on this object differs from the same solve on a fresh object with the same metric "
-                                "(history leaked)"))
+                    bad.append((None, "SameAsFreshObject: the solve on this object differs from the same solve on a fresh object with the "
+                                "current attribute values and metric (history leaked)"))
         elif op == "CalcWhitening":
+            cc = self.use_cfg(a["cfg"])
             try:
                 Wall = o.calc_whitening_matrices(self.ch)
             except Exception as ex:
                 return [(None, f"calc_whitening_matrices raised {type(ex).__name__}: {ex}")]
-            bad += [(None, b) for b in eval_whitening(req, self.M, K, N, rE, c["pe"], c["nv"], Wall)]
+            bad += [(None, b) for b in eval_whitening(req, self.M, K, N, rE, cc["pe"], self.ch_nv, Wall)]
             bad += [(None, b) for b in self.channel_untouched()]
+            if do_probe and not bad:       # QueryIsPure
+                bad += [(None, f"after calc_whitening_matrices: {b}") for b in self.probe(e["probe"])]
         elif op == "CalcReceiveFilter":
             _, newH, Ms = self.res
             Kr = K
             Nr_ = np.asarray(Ms).shape[0] // Kr
             Hres = self.res_M[:, :Kr * Nr_]
-            arg = np.array(newH)
+            arg = argument_form(np.asarray(newH), self.rs.randint(0, 4))
             try:
                 W = bdm.calc_receive_filter(arg) if a["how"] == "module" else (o.calc_receive_filter(arg) if self.rs.randint(0, 2)
                                                                                  else type(o).calc_receive_filter(arg))
             except Exception as ex:
                 return [(None, f"calc_receive_filter raised {type(ex).__name__}: {ex}")]
-            if not np.array_equal(arg, newH):
-                bad.append((None, "InputsUntouched: calc_receive_filter modified its argument"))
-            bad += [(None, b) for b in eval_bd(req, Hres, Kr, Nr_, c["p"], newH, Ms, W=W, stats=self.stats, nv=c["nv"])]
+            if not np.array_equal(arg, newH) or np.shares_memory(np.asarray(W), arg):
+                bad.append((None, "InputsUntouched: calc_receive_filter modified its argument / returned a view of it"))
+            bad += [(None, b) for b in eval_bd(req, Hres, Kr, Nr_, self.res_cfg["p"], newH, Ms, W=W, stats=self.stats, nv=self.res_cfg["nv"])]
         elif op == "Scribble":
             _, Ms, Wk, Ns = self.res
+            self.held = [h for h in self.held if not h[0].startswith("block_diagonalize_no_waterfilling(mu")]
             try:
                 Ns[...] = 0
                 for k in range(len(Ms)):
@@ -592,7 +729,7 @@ def explore(ctx, label, r, mode, seed_base):
 def model_devs(ctx):
     out = {}
     for dev in DEVS:
-        cfg, defs = model(["EBD"], [2], [2], [1], ["hi"], ["lo"], ["hi"], [1, 2], ["PSK4"], [120], emit=False, dev=[dev])
+        cfg, defs = model(["EBD"], [2], [2], [1], ["lo", "hi"], ["lo"], ["hi"], [1, 2], ["PSK4"], [120], emit=False, dev=[dev])
         r = tlc_cached(cfg, defs, 900)
         if not r.violated:
             raise tlc.TlcError(f"deviation {dev} is not detected by the laws of BlockDiag.tla")
@@ -616,8 +753,10 @@ def instances(tier):
         res.append((f"sweep:EBD:K{K}", (["EBD"], [K], [1, 2, 3], [1, 2], plab, ["lo", "hi"], pel, sns, mods, [120]), sweep_kw, {"max_len": 8}))
     # call histories
     if thorough:
-        res.append(("history:BD", (["BD"], [3], [1, 2, 3], [1], ["lo"], ["hi"], ["zero"], [1], ["PSK4"], [120]), {}, {"walks": 300, "walk_len": 12}))
-        res.append(("history:WBD", (["WBD"], [2], [1, 2, 3], [1, 2], ["hi"], ["lo"], ["hi"], [1], ["PSK4"], [120]), {}, {"walks": 300, "walk_len": 12}))
+        res.append(("history:BD", (["BD"], [3], [1, 2, 3], [1], ["lo", "hi", "mid"], ["lo", "hi"], ["zero"], [1], ["PSK4"], [120]), {}, {"walks": 300, "walk_len": 12}))
+        res.append(("history:WBD", (["WBD"], [2], [1, 2, 3], [1, 2], ["lo", "hi"], ["lo", "hi"], ["zero", "hi"], [1], ["PSK4"], [120]), {}, {"walks": 300, "walk_len": 12}))
+        res.append(("history:EBD:attrs", (["EBD"], [2, 3], [2, 3], [1], ["lo", "hi"], ["lo", "hi"], ["zero", "lo", "hi"], [1, 2], ["PSK4"], [120]), {},
+                    {"walks": 800, "walk_len": 14, "max_len": 14}))
         res.append(("history:EBD:K2", (["EBD"], [2], [2, 3], [1, 2], ["hi"], ["lo"], ["hi"], [1, 2, 3], ["PSK4", "QAM16"], [120]),
                     {"extras": True}, {"walks": 1500, "walk_len": 14, "max_len": 14}))
         res.append(("history:EBD:K3", (["EBD"], [3], [1, 2], [1, 2], ["lo"], ["hi"], ["lo"], [1, 2], ["PSK4"], [60, 120]),
@@ -627,8 +766,10 @@ def instances(tier):
         res.append(("history:EBD:K4pe0", (["EBD"], [4], [2, 3], [1], ["mid"], ["mid"], ["zero"], [1, 2], ["PSK4"], [120]),
                     {}, {"walks": 800, "walk_len": 14, "max_len": 14}))
     else:
-        res.append(("history:BD", (["BD"], [3], [2, 3], [1], ["lo"], ["hi"], ["zero"], [1], ["PSK4"], [120]), {}, {"walks": 20, "walk_len": 10}))
-        res.append(("history:WBD", (["WBD"], [2], [2, 3], [1, 2], ["hi"], ["lo"], ["hi"], [1], ["PSK4"], [120]), {}, {"walks": 20, "walk_len": 10}))
+        res.append(("history:BD", (["BD"], [3], [2, 3], [1], ["lo", "hi"], ["lo", "hi"], ["zero"], [1], ["PSK4"], [120]), {}, {"walks": 20, "walk_len": 10}))
+        res.append(("history:WBD", (["WBD"], [2], [2, 3], [1], ["lo", "hi"], ["lo"], ["zero", "hi"], [1], ["PSK4"], [120]), {}, {"walks": 20, "walk_len": 10}))
+        res.append(("history:EBD:attrs", (["EBD"], [2], [2], [1], ["lo", "hi"], ["lo", "hi"], ["zero", "hi"], [1], ["PSK4"], [120]), {},
+                    {"walks": 40, "walk_len": 12, "max_len": 12}))
         res.append(("history:EBD:K2", (["EBD"], [2], [2, 3], [1], ["hi"], ["lo"], ["hi"], [1, 2], ["PSK4"], [120]), {"extras": True},
                     {"walks": 60, "walk_len": 12, "max_len": 12}))
     return res
@@ -665,7 +806,7 @@ def run(ctx):
     for n, (inst, r) in enumerate(zip(insts, runs)):
         nedges[inst[0]] = explore(ctx, inst[0], r, inst[3], ctx.seed * 131 + n)
     ctx.notes["edges_per_instance"] = nedges
-    ctx.require_actions(["Construct", "SetMetric", "SetMetricRejected", "EditDict", "NewChannel", "SolveBD", "SolveExt",
+    ctx.require_actions(["Construct", "SetAttr", "SetMetric", "SetMetricRejected", "EditDict", "NewChannel", "SolveBD", "SolveExt",
                          "CalcWhitening", "CalcReceiveFilter", "Scribble"])
     num = ctx.notes.get("numerics", {})
     if not ctx.violations and not ctx.known_hits:
